@@ -38,9 +38,14 @@ class AttrMixin:
 
     def getattr_value(self, v, name, node):
         hk = (v.t, name)
-        if hk in self.heap:
-            return self.heap[hk].with_dep(v.dep)
         tys = self.ty(v)
+        if hk in self.heap:
+            isprop = False
+            for t in tys:
+                if t[0] == "obj" and t[1] in self.M.classes and self.M.lookup(self.M.classes[t[1]], name, "getters"):
+                    isprop = True
+            if not isprop:
+                return self.heap[hk].with_dep(v.dep)
         for t in tys:
             k = t[0]
             if k == "mod":
@@ -261,9 +266,18 @@ class AttrMixin:
             if t[0] == "h5":
                 self.emit(Event("raw", t[1] + ".setattr:" + name, recv, const(name), (val,), site=self.here(node)))
                 return
+        if not val.ty:
+            for cn in self.obj_classes(recv):
+                if cn in self.M.classes:
+                    for k in self.M.mro(self.M.classes[cn]):
+                        ty = T.ATTR_TYPES_BY_CLASS.get((k.name, name))
+                        if ty is not None and not val.ty and not is_const(val):
+                            val = val.with_ty([ty])
+            if not val.ty and not is_const(val) and name in T.ATTR_TYPES:
+                val = val.with_ty([T.ATTR_TYPES[name]])
         self.heap[(recv.t, name)] = val
         self._remember([val])
-        if recv.t[0] in ("self", "inst", "param", "attr"):
+        if recv.t[0] in ("self", "param", "attr"):
             self.emit(Event("heap", "store", recv, const(name), (val,), site=self.here(node)))
 
     def setitem_value(self, base, idx, val, node):
